@@ -6,6 +6,8 @@
                3 float (width)   4 FixedSizeBinary (param = n)   5 variable-length bytes
                6 struct (param = number of children, which follow)   7 list (child follows)
                8 FixedSizeList (param = n, child follows)   9 RunEndEncoded (child follows)
+               11 interval: param 0 = IntervalDayTime (days i32, milliseconds i32),
+                  param 1 = IntervalMonthDayNano (months i32, days i32, nanoseconds i64)
                10 Map (key and value types follow): not modelled byte for byte; the *.spec ops read it
                   as List<Struct<key, value>> (entries are never null), the byte-level ops are not used
           variant / dict select the concrete Arrow type on the Rust side (Date32, Decimal128, Utf8,
@@ -15,6 +17,7 @@
      3  values, row-major; per value (pre-order): 0 = null | 1 then
           int/bool/float: the value (floats: bit pattern)    bytes: length, bytes
           struct: the children    list / fixed-size list: element count, elements
+          interval: the signed components in declaration order
           (RunEndEncoded has no token of its own: the value of the child type)
      4  physical layout parameters of the Rust arrays (slice offsets, seeds, split, flags): ignored here
      5  row selection (roundtrip only) *)
@@ -54,6 +57,7 @@ Fixpoint parse_type (fuel : nat) (toks : list Z) : option (ftype * list Z) :=
       else if code =? 7 then one TList
       else if code =? 8 then one (fun c => TFsl c (Z.to_nat p))
       else if code =? 9 then one TRee
+      else if code =? 11 then Some (TIv (if p =? 0 then [4%nat; 4%nat] else [4%nat; 4%nat; 8%nat]), r)
       else if code =? 10 then
         (* Map(key, value): specification only, as List<Struct<key, value>> *)
         match parse_type f r with
@@ -123,6 +127,7 @@ Fixpoint parse_value (t : ftype) (toks : list Z) {struct t} : value * list Z :=
         | n :: r' => let (vs, r'') := parse_n (Z.to_nat n) (parse_value c) r' in (VList vs, r'')
         | [] => (VNull, [])
         end
+      | TIv ws => (VStruct (map VInt (firstn (List.length ws) r)), skipn (List.length ws) r)
       | TRee _ => (VNull, r)
       end
     end
@@ -150,6 +155,7 @@ Fixpoint unparse_value (t : ftype) (v : value) {struct t} : list Z :=
                 | [] => []
                 | f :: fs' => unparse_value f (hd VNull vs) ++ go fs' (tl vs)
                 end) fs vs
+      | TIv _ => 1 :: map vint vs
       | _ => [0]
       end
     | VList vs =>
